@@ -275,6 +275,26 @@ def n_init(recipe, sh, rng):
     return None
 
 
+def n_pre_as_init(recipe, sh, rng):
+    """The pre-tasks of a submitted task become its init tasks instead (same lightweight task objects): the set of
+    pre-tasks and the sequence of init tasks are separate parts of the identity."""
+    subs = [s for s in recipe["steps"] if s[0] == "submit" and not s[2]]
+    cands = []
+    for s in subs:
+        pres = [p for p in recipe["steps"] if p[0] == "pre" and p[1] == s[1]]
+        if len(pres) == 1 and len(set(pres[0][2])) == len(pres[0][2]):
+            cands.append((s[1], pres[0][2]))
+    if not cands:
+        return None
+    tid, pids = rng.choice(cands)
+    r = copy.deepcopy(recipe)
+    r["steps"] = [st for st in r["steps"] if not (st[0] == "pre" and st[1] == tid)]
+    for st in r["steps"]:
+        if st[0] == "submit" and st[1] == tid:
+            st[2] = list(pids)
+    return r, tid
+
+
 def n_regroup(recipe, sh, rng):
     """Regroup a nested list: merge two neighbouring inner lists or split one ([[1],[2]] <-> [[1,2]])."""
     c = []
@@ -305,7 +325,7 @@ def n_regroup(recipe, sh, rng):
     return r, nid
 
 
-NEAR = {"regroup": n_regroup, "init-tasks": n_init, "swap": n_swap, "rename-key": n_rename_key, "move-between": n_move_between, "sibling": n_sibling, "enum": n_enum, "scalar": n_scalar, "add-pre": n_pre}
+NEAR = {"regroup": n_regroup, "init-tasks": n_init, "swap": n_swap, "rename-key": n_rename_key, "move-between": n_move_between, "sibling": n_sibling, "enum": n_enum, "scalar": n_scalar, "add-pre": n_pre, "pre-as-init": n_pre_as_init}
 
 
 # ---------------------------------------------------------------- monitors
